@@ -179,6 +179,9 @@ Definition op_hyps (e : env) (st : state) (o : op) : Prop :=
   | OBatch ls => hyps_ok e (sfs st) ls = true
   | OBe paths old new => be_hyps e (sfs st) paths (be_old (sfs st) paths old) new = true
   | ORec paths new => rec_hyps e (sfs st) paths new = true
+  | OAdj paths procs milli =>
+      be_hyps e (sfs st) paths (get (sfs st) (hd 0 paths))
+              (adj_new procs milli (get (sfs st) (hd 0 paths))) = true
   | OExpire _ => True
   end.
 
@@ -197,11 +200,14 @@ Definition plain_op (e : env) (o : op) : Prop :=
   | OExpire _ => True
   | ORec _ _ => True
   | OBe _ _ _ => False
+  | OAdj _ _ _ => False
   end.
+
+Local Opaque adj_new.
 
 Lemma step_inv e st o : inv e st -> op_hyps e st o -> inv e (fst (step_op e st o)).
 Proof.
-  intros [Hv Hc] Ho. destruct o as [ls|k|paths old new|paths new]; cbn [step_op op_hyps] in *.
+  intros [Hv Hc] Ho. destruct o as [ls|k|paths old new|paths new|paths procs milli]; cbn [step_op op_hyps] in *.
   - apply hyps_ok_hyps in Ho. split.
     + apply leveled_valid_after; assumption.
     + apply leveled_coherent; assumption.
@@ -214,6 +220,12 @@ Proof.
   - apply rec_hyps_rhyps in Ho. split.
     + apply rec_valid_after; assumption.
     + apply rec_coherent; assumption.
+  - apply be_hyps_bhyps in Ho.
+    destruct (Z.eq_dec (adj_new procs milli (get (sfs st) (hd 0 paths))) 0) as [Hz|Hnz].
+    + unfold be_apply. rewrite Hz. cbn [Z.eqb fst]. split; assumption.
+    + split.
+      * apply be_valid_after; assumption.
+      * apply be_coherent; assumption.
 Qed.
 
 Lemma run_hist_cons e st o r :
@@ -231,7 +243,7 @@ Proof.
   induction ops as [|o r IH]; intros st Hinv Hh; [reflexivity|].
   destruct Hh as [Ho Hr]. pose proof (step_inv e st o Hinv Ho) as Hinv'.
   specialize (IH _ Hinv' Hr). destruct Hinv as [Hv Hc].
-  rewrite run_hist_cons. destruct o as [ls|k|paths old new|paths new]; cbn [hist_code].
+  rewrite run_hist_cons. destruct o as [ls|k|paths old new|paths new|paths procs milli]; cbn [hist_code].
   - cbn [op_hyps] in Ho. rewrite Ho.
     destruct (leveled_hard e st ls Ho Hc) as (H1 & H2 & H3). cbn [step_op] in *.
     pose proof (prop_code_soft e (sfs st) ls _ _ Hv H1 H2 H3) as Hs.
@@ -245,6 +257,10 @@ Proof.
   - cbn [op_hyps] in Ho. rewrite Ho.
     pose proof (rec_batch_holds e st paths new Ho Hc) as Hb. cbn [step_op] in *.
     apply (prop_code_spec e (sfs st) [rec_updaters paths new] _ _ Hv) in Hb. rewrite Hb. cbn [Z.eqb]. exact IH.
+  - cbn [op_hyps] in Ho. cbn zeta. rewrite Ho.
+    destruct (be_hard e st paths _ _ Ho Hc) as (H1 & H2 & H3). cbn [step_op] in *. cbn zeta in *.
+    pose proof (prop_code_soft e (sfs st) [be_updaters paths (adj_new procs milli (get (sfs st) (hd 0 paths)))] _ _ Hv H1 H2 H3) as Hs.
+    match goal with |- context [if ?c =? 0 then _ else _] => destruct (c =? 0) end; [exact IH|exact Hs].
 Qed.
 
 (* the whole property for histories that do not touch cpu.max on cgroup v2 *)
@@ -256,7 +272,7 @@ Proof.
   destruct Hh as [Ho Hr]. pose proof (step_inv e st o Hinv Ho) as Hinv'.
   inversion Hp as [|? ? Hpo Hpr]. subst.
   specialize (IH _ Hinv' Hr Hpr). destruct Hinv as [Hv Hc].
-  rewrite run_hist_cons. destruct o as [ls|k|paths old new|paths new]; cbn [hist_code].
+  rewrite run_hist_cons. destruct o as [ls|k|paths old new|paths new|paths procs milli]; cbn [hist_code].
   - cbn [op_hyps plain_op] in *. rewrite Ho.
     pose proof (leveled_batch_holds e st ls Ho Hc Hpo) as Hb. cbn [step_op] in *.
     apply (prop_code_spec e (sfs st) ls _ _ Hv) in Hb. rewrite Hb. cbn [Z.eqb]. exact IH.
@@ -265,6 +281,7 @@ Proof.
   - cbn [op_hyps] in Ho. rewrite Ho.
     pose proof (rec_batch_holds e st paths new Ho Hc) as Hb. cbn [step_op] in *.
     apply (prop_code_spec e (sfs st) [rec_updaters paths new] _ _ Hv) in Hb. rewrite Hb. cbn [Z.eqb]. exact IH.
+  - contradiction.
 Qed.
 
 (* ---------- what is false of the faithful model ---------- *)
